@@ -155,6 +155,9 @@ struct Case {
     labels: Vec<ReadLabel>,
     ready: bool,
     core: bool,
+    /// Only well-formed queries: the consumption model (labels) is exact and
+    /// the connection stays up until the client closes.
+    exact: bool,
 }
 
 /// Labels every consumed-byte count with the place the server is in,
@@ -235,7 +238,8 @@ fn make_case(items: Vec<Item>, ready: bool, core: bool) -> Case {
         .collect::<Vec<_>>()
         .join(",");
     let labels = read_labels(&bytes);
-    Case { id, shape, items, bytes, labels, ready, core }
+    let exact = items.iter().all(|i| matches!(i.kind, Kind::Reset | Kind::SerialCurrent | Kind::SerialOld | Kind::SerialUnknown));
+    Case { id, shape, items, bytes, labels, ready, core, exact }
 }
 
 fn core_cases() -> Vec<Case> {
@@ -394,6 +398,12 @@ enum Finding {
     NotifyInsideResponse,
     NotifyIncomplete,
     NotifyTooMany { seen: usize, fired: usize },
+    /// Fewer Serial Notify PDUs than notifications that were fired one by one
+    /// at an idle connection.
+    NotifyLost { seen: usize, owed: usize },
+    /// Buffering socket: the server went back to waiting for the client with
+    /// these bytes written but not flushed.
+    Unflushed { delivered: usize, held: Vec<u8> },
 }
 
 struct Stripped {
@@ -441,6 +451,9 @@ fn strip_notifies(out: &[u8]) -> Stripped {
 
 fn judge(reference: &[u8], candidate: &RunOutcome, fired: usize) -> Option<Finding> {
     let s = strip_notifies(&candidate.out);
+    if let Some((delivered, held)) = &candidate.unflushed_while_idle {
+        return Some(Finding::Unflushed { delivered: *delivered, held: held.clone() });
+    }
     if s.incomplete {
         return Some(Finding::NotifyIncomplete);
     }
@@ -452,6 +465,9 @@ fn judge(reference: &[u8], candidate: &RunOutcome, fired: usize) -> Option<Findi
     }
     if s.notifies > fired {
         return Some(Finding::NotifyTooMany { seen: s.notifies, fired });
+    }
+    if s.notifies < candidate.notifies_owed && !candidate.overflow {
+        return Some(Finding::NotifyLost { seen: s.notifies, owed: candidate.notifies_owed });
     }
     None
 }
@@ -566,7 +582,7 @@ fn check_reference(case: &Case, info: &SourceInfo, out: &[u8], stats: &mut RefSt
 
 //------------ schedule generators ---------------------------------------------------------
 
-use Step::{Deliver as D, DropSender as X, Grant as G, Notify as N, Settle as S, Unlimit as U};
+use Step::{Buffering as BUF, Deliver as D, DropSender as X, Grant as G, Notify as N, Settle as S, Unlimit as U};
 
 fn sched(steps: Vec<Step>) -> Schedule {
     Schedule { credit: None, settle_first: true, steps }
@@ -586,6 +602,11 @@ fn class_a(len: usize, full: bool) -> Vec<(&'static str, Schedule)> {
             continue;
         }
         v.push(("a0:cut-only", sched(vec![D(c), S])));
+        if c % 4 == 1 || full {
+            // a burst the connection cannot keep up with (the channel holds one), then another one later
+            v.push(("a7:burst,then-notify", sched(vec![D(c), S, N, N, S, N, S])));
+            v.push(("a7:burst-of-3,rest,notify", sched(vec![D(c), S, N, N, N, S, D(len - c), S, N, S])));
+        }
         v.push(("a3:chunk+notify-same-tick", sched(vec![D(c), N, S])));
         v.push(("a4:notify+rest-same-tick", sched(vec![D(c), S, N, D(len - c), S])));
         if full {
@@ -681,6 +702,23 @@ fn class_e(len: usize, out_len: usize, full: bool) -> Vec<(&'static str, Schedul
     v
 }
 
+/// (g): the connection's socket delivers only what has been flushed.
+fn class_g(len: usize, full: bool) -> Vec<(&'static str, Schedule)> {
+    let mut v = Vec::new();
+    v.push(("g0:buffering,one-piece", sched(vec![BUF, D(len), S])));
+    v.push(("g1:buffering,notify-first", sched(vec![BUF, N, S, D(len), S])));
+    let step = if full { 1 } else { 4 };
+    for c in (0..=len).step_by(step) {
+        v.push(("g2:buffering,cut,settle", sched(vec![BUF, D(c), S, D(len - c), S])));
+        v.push(("g3:buffering,cut,notify", sched(vec![BUF, D(c), S, N, S])));
+    }
+    v.push(("g4:buffering,notify-after-all", sched(vec![BUF, D(len), S, N, S, N, S])));
+    for cap in [0usize, 9, 28] {
+        v.push(("g5:buffering,blocked,drain", Schedule { credit: Some(cap), settle_first: true, steps: vec![BUF, D(len), S, G(7), S, N, S, U, S] }));
+    }
+    v
+}
+
 /// (f): random schedule.
 fn random_schedule(rng: &mut Rng, len: usize) -> Schedule {
     let credit = if rng.chance(2, 5) { Some(rng.below(130) as usize) } else { None };
@@ -689,6 +727,9 @@ fn random_schedule(rng: &mut Rng, len: usize) -> Schedule {
     let p_settle = *rng.pick(&[50u64, 85, 100]);
     let max_chunk = *rng.pick(&[1u64, 3, 5, 12, 40]);
     let mut steps = Vec::new();
+    if rng.chance(1, 6) {
+        steps.push(BUF);
+    }
     let mut off = 0usize;
     let mut guard = 0;
     let drop_at = if rng.chance(1, 8) { Some(rng.below(len as u64 + 1) as usize) } else { None };
@@ -797,7 +838,12 @@ impl<'a> Monitor<'a> {
 
     fn run(&mut self, case: &Case, schedule: &Schedule) -> RunOutcome {
         let src = self.info(case).source.clone();
-        run_schedule(&self.rt, &src, &case.bytes, &case.labels, schedule)
+        let mut r = run_schedule(&self.rt, &src, &case.bytes, &case.labels, schedule);
+        if !case.exact {
+            // where the server is after a malformed item is not modelled: no lower bound
+            r.notifies_owed = 0;
+        }
+        r
     }
 
     fn detail(&self, case: &Case, schedule: &Schedule, reference: &[u8], got: &RunOutcome) -> Value {
@@ -948,6 +994,7 @@ impl<'a> Monitor<'a> {
                 Some(c) if case.core => c.to_string(),
                 Some(c) => format!("{}..{}", c / 32 * 32, c / 32 * 32 + 31),
             };
+            let cap = if schedule.buffering() { format!("{} on a buffering socket", cap) } else { cap };
             let stream = if case.core {
                 case.id.clone()
             } else if letter == "f" {
@@ -1015,6 +1062,34 @@ impl<'a> Monitor<'a> {
                     d,
                 );
             }
+            Some(Finding::NotifyLost { seen, owed }) => {
+                let mut d = self.detail(case, schedule, reference, &got);
+                d["notifications_fired_one_by_one_at_an_idle_connection"] = json!(owed);
+                let burst = schedule.steps.windows(2).any(|w| w[0] == N && w[1] == N);
+                self.ctx.violation(
+                    if burst { "C08:notification-lost-after-burst" } else { "C08:notification-lost" },
+                    &format!(
+                        "{} notifications were fired one at a time while the connection was idle between queries (or inside a header) with the sender alive, but only {} Serial Notify PDUs were sent",
+                        owed, seen
+                    ),
+                    d,
+                );
+            }
+            Some(Finding::Unflushed { delivered, held }) => {
+                let mut d = self.detail(case, schedule, reference, &got);
+                d["delivered_bytes_before"] = json!(delivered);
+                d["written_but_not_flushed"] = json!(describe_pdus(&held));
+                d["written_but_not_flushed_hex"] = json!(hex(&held));
+                let typ = held.get(1).copied().unwrap_or(255);
+                self.ctx.violation(
+                    &format!("C08:not-flushed-before-waiting:pdu-type-{}", typ),
+                    &format!(
+                        "on a socket that delivers on flush, the server went back to waiting for the client with {} written but not flushed: the client never gets it",
+                        describe_pdus(&held)
+                    ),
+                    d,
+                );
+            }
         }
     }
 
@@ -1031,6 +1106,7 @@ enum Unit {
     B,
     C,
     E,
+    G,
     F(u64),
 }
 
@@ -1070,6 +1146,13 @@ fn small_workload(ctx: &Ctx) -> (Vec<Case>, Vec<(usize, &'static str, Schedule)>
             ));
         }
         lanes.push(lane);
+        // buffering socket, notification bursts
+        lanes.push(vec![
+            (ci, "g0:buffering,one-piece", sched(vec![BUF, D(len), S])),
+            (ci, "a7:burst,then-notify", sched(vec![D(8), S, N, N, S, N, S])),
+            (ci, "g3:buffering,cut,notify", sched(vec![BUF, D(8), S, N, S])),
+            (ci, "g4:buffering,notify-after-all", sched(vec![BUF, D(len), S, N, S, N, S])),
+        ]);
     }
     // random ones
     let mut rng = Rng::derive(ctx.seed, &["C08", "schedule-small"], &[]);
@@ -1163,6 +1246,7 @@ pub fn run(ctx: &mut Ctx) {
         units.push((ci, Unit::A));
         units.push((ci, Unit::C));
         units.push((ci, Unit::E));
+        units.push((ci, Unit::G));
         if case.bytes.len() <= b_max_len {
             units.push((ci, Unit::B));
         }
@@ -1201,6 +1285,7 @@ pub fn run(ctx: &mut Ctx) {
             Unit::E => {
                 m.all(case, &reference, class_e(len, reference.len(), full));
             }
+            Unit::G => m.all(case, &reference, class_g(len, full)),
             Unit::F(j) => {
                 let mut rng = Rng::derive(seed, &["C08", "schedule"], &[*j]);
                 for _ in 0..f_per_unit {
